@@ -829,6 +829,9 @@ class Verifier(Exec):
                     aaddr = self.addr_term(st, base.addr) if base.addr is not None else base.term
                     base = SliceV(aaddr, ZERO, I(at_['len']), I(at_['len']), at_['elem'])
                 base = ev.deref(base) if isinstance(base, PtrV) else base
+                if isinstance(base, ArrRef):
+                    at_ = self.U(base.tid)
+                    base = SliceV(base.addr, ZERO, I(at_['len']), I(at_['len']), at_['elem'])
                 if isinstance(base, PtrV):
                     raise SpecError('modifies %s: not a slice' % loc)
                 if m2:
